@@ -1,6 +1,6 @@
 (* Extract.v — extraction of the executable model to OCaml (ExtrOcamlBasic only; no Extract Constant /
    Extract Inductive of our own).  Run from /verif/ocaml:  coqc -Q ../coq PatchV ../coq/Extract.v *)
-From PatchV Require Import Base Lines Hunk Locator Formatter Options Applier LineParser Parser World Driver OptionsVocab OptionsTable Cmdline Spec_Locate Spec_Apply Oracle.
+From PatchV Require Import Base Lines Hunk Locator Formatter Options Applier LineParser Parser World Driver OptionsVocab OptionsTable Cmdline Spec_Locate Spec_Apply Spec_Define Oracle.
 Require Extraction.
 Require Import ExtrOcamlBasic.
 Extraction Language OCaml.
@@ -13,5 +13,5 @@ Extraction "model.ml"
   default_options apply_patch
   parse_patch parse_all strip_path parse_quoted_string parse_file_line parse_unified_range parse_normal_range empty_hunk parse_mode
   run_patch parse_args apply_defaults switches setters
-  norm_ws admissibleb spec_C02_locate spec_C03_locate spec_apply replay splice
+  cpp_eval norm_ws admissibleb spec_C02_locate spec_C03_locate spec_apply replay splice
   Z.mul Z.add Z.opp Z.of_N Z.to_N N.of_nat N.to_nat Z.of_nat Z.to_nat.
